@@ -214,3 +214,8 @@ B('c05b_inline_lookups_crossed', ['C05'], 'R05.b',
   (R, _OPTRY, "        if op not in _OP_ARITY_MAP:\n            _tmpl = 'unknown arity operator %r, expected one of %r'\n"
               "            raise InvalidPattern(_tmpl % (op, _OP_ARITY_MAP.keys()))\n"),
   (R, "multi=multi,\n                                                  optional=optional)", "multi=_OP_OPTIONALITY_MAP[op],\n                                                  optional=_OP_ARITY_MAP[op])"))
+B('c05b_rows_added_after_registration', ['C05'], 'R05.a',
+  (R, _CONVS, "DEFAULT_CONVS = [('int', int, _INT_PATTERN),\n                 ('float', float, _FLOAT_PATTERN)]\n"),
+  (R, "for name, func, pattern in DEFAULT_CONVS:\n    _register_converter(name, func, pattern)\n",
+      "for name, func, pattern in DEFAULT_CONVS:\n    _register_converter(name, func, pattern)\n"
+      "DEFAULT_CONVS += [(_type_name, unicode, _STR_PATTERN) for _type_name in ('str', 'unicode')]\n"))
